@@ -173,19 +173,16 @@ def evalCondW (w : World) (toks : List Tok) : Bool × World :=
   match w.st.err with
   | some _ => (false, w)
   | none =>
-    match runExpand w.plat.tbl toks with
-    | .ok ts => match CbiVerif.Eval.evaluatePP ts with
-      | .ok b => (b, w)
-      | .error e => (false, w.setErr e)
+    match condValue w.plat.tbl toks with
+    | .ok b => (b, w)
     | .error e => (false, w.setErr e)
-    | .sig s => (false, w.setErr (.other s))
 
 /-- literal or computed include: `(path, is_system_include)` -/
 def includeTarget (tbl : Table) (toks : List Tok) : Except Err (String × Bool) :=
   match includePath toks with
   | some r => .ok r
   | none =>
-    match runExpand tbl toks with
+    match runExpandT tbl toks with
     | .ok ts => match includePath ts with | some r => .ok r | none => .error (.parse "Invalid path.")
     | .error e => .error e
     | .sig s => .error (.other s)
